@@ -141,6 +141,20 @@ PROPS = {
         assumptions=["timely = the server finishes a session within 6 s and a fresh probe session within 4 s on this machine",
                      "memory exhaustion by an endless line without terminator is outside the model (lines up to 70 kB are exercised)"],
     ),
+    "C13": dict(
+        lean_props="Receptor.Props.C13",
+        engines=[dict(engine="life", pkg="pkg/workceptor", test="TestVerifLife", n_quick=4, n_thorough=30, shardable=False)],
+        corr_ops={"life": ["units"]},
+        facts=["life_cancel_order", "life_cancel_keeps_succeeded", "life_runner_writes", "life_start_order", "life_alloc_order", "life_release"],
+        trusted=["every status rewrite is an atomic read-modify-write (property C14) — the model's steps are whole rewrites",
+                 "the rewrite log comes from an instrumented copy of /repo's current workunitbase.go injected with -overlay "
+                 "(tools/check.py instrument_workunitbase + harness/overlay/pkg/workceptor/verif_hook.go); /repo itself carries no hook",
+                 "the runner process is this test binary calling commandRunnerCfg.Run (the `receptor --command-runner` code path "
+                 "minus command-line parsing)",
+                 "remote and Kubernetes units are outside this check; in-process units are a stub work type"],
+        assumptions=["signals: the runner reads an interrupt only in its wait loop (as in the source); process scheduling is sampled, "
+                     "with the runner held at the status lock to place a cancel between the command's exit and the final write"],
+    ),
     "C14": dict(
         lean_props="Receptor.Props.C14",
         engines=[dict(engine="status", pkg="pkg/workceptor", test="TestVerifStatus", n_quick=40, n_thorough=400)],
